@@ -326,6 +326,8 @@ def regen_coalitions(repo: Path | None = None) -> bool:
 
 def regen_all() -> None:
     regen_coalitions()
+    import translate_ids          # id-array side (coalition_ids.py -> gen/CoalitionIdsGen.v)
+    translate_ids.regen_coalition_ids()
     import registry_dump
     registry_dump.regen_registry()
 
